@@ -1,15 +1,17 @@
 import GuppyVerif.Lemmas.C06Local
 /-! C06 helper lemmas, part 4 (completeness): when pass 1 of the checker raises an error that is
     not an internal one (`crash`), then either a path-independent ownership rule is broken at
-    that statement, or the bookkeeping of some linear leaf fails at one of its events
-    (`Fails`) — and such a failure is a failure of the ownership semantics too (`fails_sem`). -/
+    that statement, or the bookkeeping of some leaf fails at one of its events (`Fails`) — and
+    such a failure is a failure of the ownership semantics too (`fails_sem`). -/
 namespace GuppyVerif.Linearity
 
 /-- the bookkeeping raises a user error at this event -/
-def CFail (inPar : Bool) (c : LSt) : Ev → Prop
-  | .use => (c.inVars = true ∧ c.usedLocal = true) ∨ (c.inVars = false ∧ inPar = true ∧ c.usedParent = true)
+def CFail (inPar : Bool) (c : LSt) (e : Ev) : Prop :=
+  match e.op with
+  | .use => e.lin = true ∧ ((c.inVars = true ∧ c.usedLocal = true) ∨
+      (c.inVars = false ∧ inPar = true ∧ c.usedParent = true))
   | .give => False
-  | .asg => c.inVars = true ∧ c.usedLocal = false
+  | .asg => c.inVars = true ∧ c.usedLocal = false ∧ c.kLoc = true
 
 /-- the bookkeeping of leaf `l`, started in scope `s`, runs into a user error within `evs` -/
 def Fails (l : Leaf) (s : Scope) (evs : List Ev) : Prop :=
@@ -31,25 +33,38 @@ theorem Fails.prepend {l : Leaf} {s s1 : Scope} {evs0 evs : List Ev} (hp : s1.pa
   rw [← hp]; exact h2
 
 /-- outcome of a failing piece of pass 1: an internal error, a broken path-independent rule
-    (`S`), or a bookkeeping failure of a linear leaf -/
-def Out (P : Prog) (s : Scope) (S : Prop) (evs : Leaf → List Ev) (e : Err) : Prop :=
-  e = .crash ∨ S ∨ ∃ l, P.lin l = true ∧ Fails l s (evs l)
+    (`S`), or a bookkeeping failure of a leaf -/
+def Out (s : Scope) (S : Prop) (evs : Leaf → List Ev) (e : Err) : Prop :=
+  e = .crash ∨ S ∨ ∃ l, Fails l s (evs l)
 
-theorem Out.mono {P : Prog} {s : Scope} {S S' : Prop} {evs evs' : Leaf → List Ev} {e : Err}
-    (hS : S → S') (hE : ∀ l, P.lin l = true → Fails l s (evs l) → Fails l s (evs' l))
-    (h : Out P s S evs e) : Out P s S' evs' e := by
-  rcases h with h | h | ⟨l, hl, h⟩
+theorem Out.mono {s : Scope} {S S' : Prop} {evs evs' : Leaf → List Ev} {e : Err}
+    (hS : S → S') (hE : ∀ l, Fails l s (evs l) → Fails l s (evs' l))
+    (h : Out s S evs e) : Out s S' evs' e := by
+  rcases h with h | h | ⟨l, h⟩
   · exact Or.inl h
   · exact Or.inr (Or.inl (hS h))
-  · exact Or.inr (Or.inr ⟨l, hl, hE l hl h⟩)
+  · exact Or.inr (Or.inr ⟨l, hE l h⟩)
+
+theorem Out.prepend {s s1 : Scope} {S : Prop} {evs0 evs : Leaf → List Ev} {e : Err}
+    (hp : s1.parent = s.parent)
+    (h0 : ∀ l, crun (s.parent.contains l) (s.proj l) (evs0 l) = some (s1.proj l))
+    (h : Out s1 S evs e) : Out s S (fun l => evs0 l ++ evs l) e := by
+  rcases h with h | h | ⟨l, hf⟩
+  · exact Or.inl h
+  · exact Or.inr (Or.inl h)
+  · exact Or.inr (Or.inr ⟨l, hf.prepend hp (h0 l)⟩)
+
+theorem Out.append_right {s : Scope} {S : Prop} {evs : Leaf → List Ev} {e : Err}
+    (more : Leaf → List Ev) (h : Out s S evs e) : Out s S (fun l => evs l ++ more l) e :=
+  h.mono id fun _ hf => hf.append_right _
 
 /-- a failing monadic fold fails in one of its steps, after a successful prefix -/
-theorem foldlM_fail {α : Type} {P : Prog} (f : Scope → α → R Scope) (ev : Leaf → α → List Ev) (S : α → Prop)
+theorem foldlM_fail {α : Type} (f : Scope → α → R Scope) (ev : Leaf → α → List Ev) (S : α → Prop)
     (hok : ∀ s s' a, f s a = .ok s' → s'.parent = s.parent ∧
-      ∀ l, P.lin l = true → crun (s.parent.contains l) (s.proj l) (ev l a) = some (s'.proj l))
-    (herr : ∀ s a e, f s a = .error e → Out P s (S a) (fun l => ev l a) e) :
+      ∀ l, crun (s.parent.contains l) (s.proj l) (ev l a) = some (s'.proj l))
+    (herr : ∀ s a e, f s a = .error e → Out s (S a) (fun l => ev l a) e) :
     ∀ (as : List α) (s : Scope) (e : Err), as.foldlM f s = .error e →
-      Out P s (∃ a ∈ as, S a) (fun l => as.flatMap (ev l)) e := by
+      Out s (∃ a ∈ as, S a) (fun l => as.flatMap (ev l)) e := by
   intro as
   induction as with
   | nil => intro s e h; simp [pure, Except.pure] at h
@@ -62,140 +77,109 @@ theorem foldlM_fail {α : Type} {P : Prog} (f : Scope → α → R Scope) (ev : 
       simp only [bind, Except.bind] at h
       cases h
       refine (herr s a _ h1).mono (fun hs => ⟨a, List.mem_cons_self, hs⟩) ?_
-      intro l _ hf
+      intro l hf
       simp only [List.flatMap_cons]
       exact hf.append_right _
     | ok s1 =>
       rw [h1] at h
       obtain ⟨hp, hc⟩ := hok s s1 a h1
       refine (ih s1 e h).elim (fun h' => Or.inl h') fun h' => Or.inr ?_
-      rcases h' with ⟨b, hb, hs⟩ | ⟨l, hl, hf⟩
+      rcases h' with ⟨b, hb, hs⟩ | ⟨l, hf⟩
       · exact Or.inl ⟨b, List.mem_cons_of_mem _ hb, hs⟩
-      · refine Or.inr ⟨l, hl, ?_⟩
+      · refine Or.inr ⟨l, ?_⟩
         simp only [List.flatMap_cons]
-        exact hf.prepend hp (hc l hl)
+        exact hf.prepend hp (hc l)
 
 /-! ### the failing steps of pass 1 -/
 
-theorem useLeaf_parent {P : Prog} {s s' : Scope} {x : Leaf} (h : useLeaf P s x = .ok s') : s'.parent = s.parent := by
-  rcases useLeaf_ok h with ⟨_, _, rfl⟩ | ⟨_, _, _, rfl⟩ <;> rfl
-
-theorem assignLeaf_parent {P : Prog} {s s' : Scope} {x : Leaf} (h : assignLeaf P s x = .ok s') :
-    s'.parent = s.parent := by
-  unfold assignLeaf at h
-  split at h
-  · cases h
-  · cases h; rfl
-
-theorem useLeaf_err {P : Prog} {s : Scope} {x : Leaf} {e : Err} (h : useLeaf P s x = .error e) :
-    Out P s False (fun l => if x = l then [Ev.use] else []) e := by
+theorem useLeaf_err {s : Scope} {xk : Leaf × Bool} {e : Err} (h : useLeaf s xk = .error e) :
+    Out s False (fun l => if xk.1 = l then [⟨Op.use, xk.2⟩] else []) e := by
+  obtain ⟨x, k⟩ := xk
   unfold useLeaf Scope.used Scope.use at h
+  simp only at h ⊢
   by_cases hv : x ∈ s.vars
   · by_cases hu : x ∈ s.usedLocal
-    · by_cases hl : P.lin x = true
-      · refine Or.inr (Or.inr ⟨x, hl, [], .use, [], s.proj x, by simp, by simp [crun], ?_⟩)
-        left
-        simp [Scope.proj, hv, hu]
+    · by_cases hl : k = true
+      · refine Or.inr (Or.inr ⟨x, [], ⟨.use, k⟩, [], s.proj x, by simp, by simp [crun], ?_⟩)
+        simp [CFail, Scope.proj, hv, hu, hl]
       · simp [hv, hu, hl] at h
     · simp [hv, hu] at h
   · by_cases hp : x ∈ s.parent
     · by_cases hu : x ∈ s.usedParent
-      · by_cases hl : P.lin x = true
-        · refine Or.inr (Or.inr ⟨x, hl, [], .use, [], s.proj x, by simp, by simp [crun], ?_⟩)
-          right
-          simp [Scope.proj, hv, hu, hp]
+      · by_cases hl : k = true
+        · refine Or.inr (Or.inr ⟨x, [], ⟨.use, k⟩, [], s.proj x, by simp, by simp [crun], ?_⟩)
+          simp [CFail, Scope.proj, hv, hu, hp, hl]
         · simp [hv, hp, hu, hl] at h
       · simp [hv, hp, hu] at h
     · simp [hv, hp] at h
       exact Or.inl h.symm
 
-theorem assignLeaf_err {P : Prog} {s : Scope} {x : Leaf} {e : Err} (h : assignLeaf P s x = .error e) :
-    Out P s False (fun l => if x = l then [Ev.asg] else []) e := by
+theorem assignLeaf_err {s : Scope} {xk : Leaf × Bool} {e : Err} (h : assignLeaf s xk = .error e) :
+    Out s False (fun l => if xk.1 = l then [⟨Op.asg, xk.2⟩] else []) e := by
+  obtain ⟨x, k⟩ := xk
   unfold assignLeaf at h
   split at h
   · rename_i hc
     simp only [Bool.and_eq_true, Bool.not_eq_true', List.contains_iff_mem] at hc
     obtain ⟨⟨hv, hu⟩, hl⟩ := hc
-    refine Or.inr (Or.inr ⟨x, hl, [], .asg, [], s.proj x, by simp, by simp [crun], ?_⟩)
+    refine Or.inr (Or.inr ⟨x, [], ⟨.asg, k⟩, [], s.proj x, by simp, by simp [crun], ?_⟩)
     have hu' : x ∉ s.usedLocal := by simpa using hu
-    simp [CFail, Scope.proj, hv, hu']
+    simp [CFail, Scope.proj, hv, hu', hl]
   · cases h
+
+theorem visitPlace_parent {P : Prog} {borrow : Bool} {s s' : Scope} {p : Place}
+    (h : visitPlace P borrow s p = .ok s') : s'.parent = s.parent :=
+  (visitPlace_proj (l := 0) h).1.1
 
 theorem visitPlace_err {P : Prog} {borrow : Bool} {s : Scope} {p : Place} {e : Err}
     (h : visitPlace P borrow s p = .error e) :
-    Out P s (borrow = false ∧ isInoutVar P p = true) (fun l => leafEvs .use l p.leaves) e := by
+    Out s (borrow = false ∧ isInoutVar P p = true) (fun l => leafEvs .use l p.leaves) e := by
   unfold visitPlace at h
   split at h
   · rename_i hc
     simp only [Bool.and_eq_true, Bool.not_eq_true'] at hc
     exact Or.inr (Or.inl ⟨hc.2, hc.1⟩)
-  · have := foldlM_fail (P := P) (useLeaf P) (fun l x => if x = l then [Ev.use] else []) (fun _ => False)
-      (fun s s' x hx => ⟨useLeaf_parent hx, fun l hl => crun_ite _ _ _ _ _ _ (useLeaf_proj hl hx).2⟩)
+  · have := foldlM_fail useLeaf (fun l xk => if xk.1 = l then [⟨Op.use, xk.2⟩] else []) (fun _ => False)
+      (fun s s' x hx => ⟨(useLeaf_parent hx).1, fun l => crun_ite _ _ _ _ _ _ (useLeaf_proj hx)⟩)
       (fun s x e hx => useLeaf_err hx) p.leaves s e h
-    exact this.mono (fun ⟨_, _, hf⟩ => hf.elim) (fun l _ hf => hf)
+    exact this.mono (fun ⟨_, _, hf⟩ => hf.elim) (fun l hf => hf)
 
-theorem foldlM_parent {α : Type} (f : Scope → α → R Scope)
-    (hf : ∀ s s' a, f s a = .ok s' → s'.parent = s.parent) :
-    ∀ (as : List α) (s s' : Scope), as.foldlM f s = .ok s' → s'.parent = s.parent := by
-  intro as
-  induction as with
-  | nil => intro s s' h; simp [pure, Except.pure] at h; rw [h]
-  | cons a as ih =>
-    intro s s' h
-    rw [List.foldlM_cons] at h
-    cases h1 : f s a with
-    | error e => rw [h1] at h; cases h
-    | ok s1 => rw [h1] at h; exact (ih s1 s' h).trans (hf s s1 a h1)
-
-theorem visitPlace_parent {P : Prog} {borrow : Bool} {s s' : Scope} {p : Place}
-    (h : visitPlace P borrow s p = .ok s') : s'.parent = s.parent := by
-  unfold visitPlace at h
-  split at h
-  · cases h
-  · exact foldlM_parent _ (fun _ _ _ hx => useLeaf_parent hx) _ _ _ h
+theorem doAct_err {P : Prog} {s : Scope} {a : Act} {e : Err} (h : doAct P s a = .error e) :
+    Out s (¬ a.StaticOK P) (fun l => a.evs l) e := by
+  cases a with
+  | use p borrow =>
+    simp only [doAct] at h
+    refine (visitPlace_err h).mono ?_ (fun l hf => hf)
+    rintro ⟨hb, hi⟩ hs
+    rw [hs hb] at hi; cases hi
+  | give p => simp [doAct] at h
+  | dropAfter => exact Or.inr (Or.inl (fun h' => h'))
 
 theorem assignTarget_parent {P : Prog} {s s' : Scope} {t : Place} (h : assignTarget P s t = .ok s') :
-    s'.parent = s.parent := by
-  unfold assignTarget at h
-  split at h
-  · cases h
-  · exact foldlM_parent _ (fun _ _ _ hx => assignLeaf_parent hx) _ _ _ h
-
-theorem Out.prepend {P : Prog} {s s1 : Scope} {S : Prop} {evs0 evs : Leaf → List Ev} {e : Err}
-    (hp : s1.parent = s.parent)
-    (h0 : ∀ l, P.lin l = true → crun (s.parent.contains l) (s.proj l) (evs0 l) = some (s1.proj l))
-    (h : Out P s1 S evs e) : Out P s S (fun l => evs0 l ++ evs l) e := by
-  rcases h with h | h | ⟨l, hl, hf⟩
-  · exact Or.inl h
-  · exact Or.inr (Or.inl h)
-  · exact Or.inr (Or.inr ⟨l, hl, hf.prepend hp (h0 l hl)⟩)
-
-theorem Out.append_right {P : Prog} {s : Scope} {S : Prop} {evs : Leaf → List Ev} {e : Err}
-    (more : Leaf → List Ev) (h : Out P s S evs e) : Out P s S (fun l => evs l ++ more l) e :=
-  h.mono id fun l _ hf => hf.append_right _
+    s'.parent = s.parent := (assignTarget_proj (l := 0) h).1.1
 
 theorem assignTarget_err {P : Prog} {s : Scope} {t : Place} {e : Err} (h : assignTarget P s t = .error e) :
-    Out P s (isInoutVar P t = true) (fun l => leafEvs .asg l t.leaves) e := by
+    Out s (isInoutVar P t = true) (fun l => leafEvs .asg l t.leaves) e := by
   unfold assignTarget at h
   split at h
   · rename_i hc
     simp only [Bool.and_eq_true] at hc
     exact Or.inr (Or.inl hc.1.2)
-  · have := foldlM_fail (P := P) (assignLeaf P) (fun l x => if x = l then [Ev.asg] else []) (fun _ => False)
-      (fun s s' x hx => ⟨assignLeaf_parent hx, fun l hl => crun_ite _ _ _ _ _ _ (assignLeaf_proj hl hx).2⟩)
+  · have := foldlM_fail assignLeaf (fun l xk => if xk.1 = l then [⟨Op.asg, xk.2⟩] else []) (fun _ => False)
+      (fun s s' x hx => ⟨(assignLeaf_parent hx).1, fun l => crun_ite _ _ _ _ _ _ (assignLeaf_proj hx)⟩)
       (fun s x e hx => assignLeaf_err hx) t.leaves s e h
-    exact this.mono (fun ⟨_, _, hf⟩ => hf.elim) (fun l _ hf => hf)
+    exact this.mono (fun ⟨_, _, hf⟩ => hf.elim) (fun l hf => hf)
 
 theorem assignTargets_err {P : Prog} {s : Scope} {tgts : List Place} {e : Err}
     (h : assignTargets P s tgts = .error e) :
-    Out P s (∃ t ∈ tgts, isInoutVar P t = true) (fun l => placesEvs .asg l tgts) e := by
+    Out s (∃ t ∈ tgts, isInoutVar P t = true) (fun l => tgts.flatMap fun t => leafEvs .asg l t.leaves) e := by
   unfold assignTargets at h
   cases h1 : tgts.foldlM (assignTarget P) s with
   | error e1 =>
     simp only [h1, bind, Except.bind] at h
     cases h
-    exact foldlM_fail (P := P) (assignTarget P) (fun l t => leafEvs .asg l t.leaves) (fun t => isInoutVar P t = true)
-      (fun s s' t ht => ⟨assignTarget_parent ht, fun l hl => (assignTarget_proj hl ht).2⟩)
+    exact foldlM_fail (assignTarget P) (fun l t => leafEvs .asg l t.leaves) (fun t => isInoutVar P t = true)
+      (fun s s' t ht => ⟨assignTarget_parent ht, fun l => (assignTarget_proj ht).2⟩)
       (fun s t e ht => assignTarget_err ht) tgts s _ h1
   | ok s1 =>
     simp only [h1, bind, Except.bind] at h
@@ -205,188 +189,126 @@ theorem assignTargets_err {P : Prog} {s : Scope} {tgts : List Place} {e : Err}
       exact Or.inr (Or.inl hc)
     · cases h
 
-theorem visitSrcs_err {P : Prog} {s : Scope} {srcs : List Place} {e : Err}
-    (h : srcs.foldlM (visitPlace P false) s = .error e) :
-    Out P s (∃ p ∈ srcs, isInoutVar P p = true) (fun l => placesEvs .use l srcs) e :=
-  (foldlM_fail (P := P) (visitPlace P false) (fun l p => leafEvs .use l p.leaves)
-    (fun p => false = false ∧ isInoutVar P p = true)
-    (fun s s' p hp => ⟨visitPlace_parent hp, fun l hl => (visitPlace_proj hl hp).2.1⟩)
-    (fun s p e hp => visitPlace_err hp) srcs s e h).mono
-    (fun ⟨p, hp, _, h⟩ => ⟨p, hp, h⟩) (fun l _ hf => hf)
-
-theorem visitArgs_err {P : Prog} {s : Scope} {args : List Arg} {e : Err}
-    (h : visitArgs P s args = .error e) :
-    Out P s (∃ a ∈ args, a.isInout = false ∧ isInoutVar P a.place = true)
-      (fun l => placesEvs .use l (args.map Arg.place)) e := by
-  have := foldlM_fail (P := P) (fun s (a : Arg) => visitPlace P a.isInout s a.place)
-    (fun l a => leafEvs .use l a.place.leaves) (fun a => a.isInout = false ∧ isInoutVar P a.place = true)
-    (fun s s' a hp => ⟨visitPlace_parent hp, fun l hl => (visitPlace_proj hl hp).2.1⟩)
-    (fun s a e hp => visitPlace_err hp) args s e h
-  refine this.mono id ?_
-  intro l _ hf
-  have he : placesEvs .use l (args.map Arg.place) = args.flatMap fun a => leafEvs .use l a.place.leaves := by
-    unfold placesEvs; simp [List.flatMap_map]
-  rw [he]; exact hf
-
 theorem checkStmt_err {P : Prog} {s : Scope} {st : Stmt} {e : Err} (h : checkStmt P s st = .error e) :
-    Out P s (¬ st.StaticOK P) (fun l => st.evs l) e := by
-  cases st with
-  | move tgts srcs =>
-    simp only [checkStmt] at h
-    cases h1 : srcs.foldlM (visitPlace P false) s with
-    | error e1 =>
-      simp only [h1, bind, Except.bind] at h
-      cases h
-      refine ((visitSrcs_err h1).append_right fun l => placesEvs .asg l tgts).mono ?_ (fun l _ hf => hf)
-      rintro ⟨p, hp, hi⟩ ⟨hs, _⟩
-      rw [hs p hp] at hi; cases hi
-    | ok s1 =>
-      simp only [h1, bind, Except.bind] at h
-      refine ((assignTargets_err h).prepend (s := s) (evs0 := fun l => placesEvs .use l srcs)
-        (foldlM_parent _ (fun _ _ _ hx => visitPlace_parent hx) _ _ _ h1) ?_).mono ?_ (fun l _ hf => hf)
-      · intro l hl
-        exact (foldlM_proj l (visitPlace P false) (fun p => leafEvs .use l p.leaves) (fun _ => True)
-          (fun s s' p hp => ⟨(visitPlace_proj hl hp).1, (visitPlace_proj hl hp).2.1, trivial⟩) srcs s s1 h1).2.1
-      · rintro ⟨t, ht, hi⟩ ⟨_, hs⟩
-        rw [hs t ht] at hi; cases hi
-  | call tgts args d =>
-    simp only [checkStmt] at h
-    cases h1 : visitArgs P s args with
-    | error e1 =>
-      simp only [h1, bind, Except.bind] at h
-      cases h
-      have := (visitArgs_err h1).append_right fun l =>
-        placesEvs .give l ((args.filter Arg.isInout).map Arg.place) ++ placesEvs .asg l tgts
-      refine this.mono ?_ (fun l _ hf => by simpa [Stmt.evs, List.append_assoc] using hf)
-      rintro ⟨a, ha, hi1, hi2⟩ ⟨hs, _⟩
-      rw [hs a ha hi1] at hi2; cases hi2
-    | ok s1 =>
-      simp only [h1, bind, Except.bind] at h
-      have hp1 : s1.parent = s.parent := foldlM_parent _ (fun _ _ _ hx => visitPlace_parent hx) _ _ _ h1
-      have hc1 : ∀ l, P.lin l = true →
-          crun (s.parent.contains l) (s.proj l) (placesEvs .use l (args.map Arg.place)) = some (s1.proj l) := by
-        intro l hl
-        have := (foldlM_proj l (fun s (a : Arg) => visitPlace P a.isInout s a.place)
-          (fun a => leafEvs .use l a.place.leaves) (fun _ => True)
-          (fun s s' a hp => ⟨(visitPlace_proj hl hp).1, (visitPlace_proj hl hp).2.1, trivial⟩) args s s1 h1).2.1
-        have he : placesEvs .use l (args.map Arg.place) = args.flatMap fun a => leafEvs .use l a.place.leaves := by
-          unfold placesEvs; simp [List.flatMap_map]
-        rw [he]; exact this
-      split at h
-      · rename_i hd
-        refine Or.inr (Or.inl ?_)
-        rintro ⟨_, _, hd'⟩
-        rw [hd'] at hd; cases hd
-      · have hr := fun l => reassignInout_proj l s1 args
-        have := ((assignTargets_err h).prepend (s := s1)
-          (evs0 := fun l => placesEvs .give l ((args.filter Arg.isInout).map Arg.place)) (hr 0).1
-          (fun l _ => (hr l).2)).prepend (s := s) (evs0 := fun l => placesEvs .use l (args.map Arg.place)) hp1 hc1
-        refine this.mono ?_ (fun l _ hf => by simpa [Stmt.evs, List.append_assoc] using hf)
-        rintro ⟨t, ht, hi⟩ ⟨_, hs, _⟩
-        rw [hs t ht] at hi; cases hi
-  | ret srcs =>
-    simp only [checkStmt] at h
-    refine (visitSrcs_err h).mono ?_ (fun l _ hf => hf)
-    rintro ⟨p, hp, hi⟩ hs
-    rw [hs p hp] at hi; cases hi
-
-theorem checkStmt_parent {P : Prog} {s s' : Scope} {st : Stmt} (h : checkStmt P s st = .ok s') :
-    s'.parent = s.parent := by
-  cases st with
-  | move tgts srcs =>
-    simp only [checkStmt] at h
-    cases h1 : srcs.foldlM (visitPlace P false) s with
-    | error e => simp [h1, bind, Except.bind] at h
-    | ok s1 =>
-      simp only [h1, bind, Except.bind] at h
-      unfold assignTargets at h
-      cases h2 : tgts.foldlM (assignTarget P) s1 with
-      | error e => simp [h2, bind, Except.bind] at h
-      | ok s2 =>
-        simp only [h2, bind, Except.bind] at h
-        split at h
-        · cases h
-        · cases h
-          exact (foldlM_parent _ (fun _ _ _ hx => assignTarget_parent hx) _ _ _ h2).trans
-            (foldlM_parent _ (fun _ _ _ hx => visitPlace_parent hx) _ _ _ h1)
-  | call tgts args d =>
-    simp only [checkStmt] at h
-    cases h1 : visitArgs P s args with
-    | error e => simp [h1, bind, Except.bind] at h
-    | ok s1 =>
-      simp only [h1, bind, Except.bind] at h
-      split at h
-      · cases h
-      · unfold assignTargets at h
-        cases h2 : tgts.foldlM (assignTarget P) (reassignInout s1 args) with
-        | error e => simp [h2, bind, Except.bind] at h
-        | ok s2 =>
-          simp only [h2, bind, Except.bind] at h
-          split at h
-          · cases h
-          · cases h
-            exact ((foldlM_parent _ (fun _ _ _ hx => assignTarget_parent hx) _ _ _ h2).trans
-              (reassignInout_proj 0 s1 args).1).trans
-              (foldlM_parent _ (fun _ _ _ hx => visitPlace_parent hx) _ _ _ h1)
-  | ret srcs =>
-    simp only [checkStmt] at h
-    exact foldlM_parent _ (fun _ _ _ hx => visitPlace_parent hx) _ _ _ h
+    Out s (¬ st.StaticOK P) (fun l => st.evs l) e := by
+  unfold checkStmt at h
+  cases h1 : st.acts.foldlM (doAct P) s with
+  | error e1 =>
+    simp only [h1, bind, Except.bind] at h
+    cases h
+    have := foldlM_fail (doAct P) (fun l a => a.evs l) (fun a => ¬ a.StaticOK P)
+      (fun s s' a ha => ⟨(doAct_proj (l := 0) ha).1.1, fun l => (doAct_proj ha).2.1⟩)
+      (fun s a e ha => doAct_err ha) st.acts s _ h1
+    refine (this.append_right fun l => st.tgts.flatMap fun t => leafEvs .asg l t.leaves).mono ?_ (fun l hf => hf)
+    rintro ⟨a, ha, hn⟩ ⟨hs, _⟩
+    exact hn (hs a ha)
+  | ok s1 =>
+    simp only [h1, bind, Except.bind] at h
+    have a := fun l => foldlM_proj l (doAct P) (Act.evs l) (fun _ => True)
+      (fun s s' a ha => ⟨(doAct_proj (l := l) ha).1, (doAct_proj (l := l) ha).2.1, trivial⟩) st.acts s s1 h1
+    split at h
+    · rename_i hd
+      refine Or.inr (Or.inl ?_)
+      rintro ⟨_, _, hd'⟩
+      rw [hd'] at hd; cases hd
+    · refine ((assignTargets_err h).prepend (s := s) (evs0 := fun l => st.acts.flatMap (Act.evs l))
+        (a 0).1.1 (fun l => (a l).2.1)).mono ?_ (fun l hf => hf)
+      rintro ⟨t, ht, hi⟩ ⟨_, hs, _⟩
+      rw [hs t ht] at hi; cases hi
 
 /-- a block on which pass 1 raises an error: internal error, broken path-independent rule, or a
-    bookkeeping failure of a linear leaf among the block's events -/
+    bookkeeping failure of a leaf among the block's events -/
 theorem checkBlock_err {P : Prog} {b : Blk} {e : Err} (h : checkBlock P b = .error e) :
-    Out P (initScope P b) (∃ st ∈ P.stmts b, ¬ st.StaticOK P) (fun l => (P.stmts b).flatMap (Stmt.evs l)) e := by
+    Out (initScope P b) (∃ st ∈ P.stmts b, ¬ st.StaticOK P) (fun l => (P.stmts b).flatMap (Stmt.evs l)) e := by
   unfold checkBlock at h
-  exact foldlM_fail (P := P) (checkStmt P) (fun l st => st.evs l) (fun st => ¬ st.StaticOK P)
-    (fun s s' st hs => ⟨checkStmt_parent hs, fun l hl => (checkStmt_proj hl hs).2.1⟩)
+  exact foldlM_fail (checkStmt P) (fun l st => st.evs l) (fun st => ¬ st.StaticOK P)
+    (fun s s' st hs => ⟨(checkStmt_proj (l := 0) hs).1.1, fun l => (checkStmt_proj hs).2.1⟩)
     (fun s st e hs => checkStmt_err hs) (P.stmts b) _ e h
 
 /-! ### a bookkeeping failure is a failure of the ownership semantics -/
 
-theorem rel_step {inPar : Bool} {c c' : LSt} {e : Ev} {o o' o0 : Bool} (h : cstep inPar c e = some c')
-    (hs : Ev.step o e = some o') (hr : Rel o0 c o) : Rel o0 c' o' := by
-  rcases c with ⟨a, b, d⟩
-  cases e <;> cases a <;> cases b <;> cases d <;> cases inPar <;> simp [cstep] at h <;> subst h <;>
-    cases o <;> cases o0 <;> simp_all [Rel, Ev.step]
+theorem rel_step {inPar : Bool} {c c' : LSt} {e : Ev} {o o' o0 : Bool} {k k' k0 : Option Bool}
+    (h : cstep inPar c e = some c') (hs : Ev.step o e = some o') (hk : Ev.kstep k e = some k')
+    (hi : KInv k0 c k) (hr : Rel o0 k0 c o) (hK : k0 ≠ some true → o0 = false) :
+    KInv k0 c' k' ∧ Rel o0 k0 c' o' := by
+  rcases c with ⟨a, kl, b, d⟩
+  rcases e with ⟨op, el⟩
+  cases a
+  · simp only [KInv, Bool.false_eq_true, if_false] at hi
+    subst hi
+    cases op <;> cases b <;> cases d <;> cases inPar <;> cases el <;> simp [cstep] at h <;> subst h <;>
+      cases o <;> cases o0 <;> rcases k with _ | _ | _ <;>
+      simp_all [Rel, KInv, Ev.step, Ev.kstep]
+  · simp only [KInv, if_true] at hi
+    subst hi
+    cases op <;> cases b <;> cases d <;> cases inPar <;> cases el <;> cases kl <;> simp [cstep] at h <;>
+      subst h <;> cases o <;> simp_all [Rel, KInv, Ev.step, Ev.kstep]
 
-theorem rel_run {inPar : Bool} {o0 : Bool} : ∀ (es : List Ev) (c c1 : LSt) (o o1 : Bool),
-    crun inPar c es = some c1 → runEvs o es = some o1 → Rel o0 c o → Rel o0 c1 o1 := by
+theorem rel_run {inPar : Bool} {o0 : Bool} {k0 : Option Bool} (hK : k0 ≠ some true → o0 = false) :
+    ∀ (es : List Ev) (c c1 : LSt) (o o1 : Bool) (k k1 : Option Bool),
+    crun inPar c es = some c1 → runEvs o es = some o1 → krun k es = some k1 → KInv k0 c k → Rel o0 k0 c o →
+    KInv k0 c1 k1 ∧ Rel o0 k0 c1 o1 := by
   intro es
   induction es with
   | nil =>
-    intro c c1 o o1 h hs hr
-    simp [crun] at h; simp [runEvs] at hs
-    subst h; subst hs; exact hr
+    intro c c1 o o1 k k1 h hs hk hi hr
+    simp [crun] at h; simp [runEvs] at hs; simp [krun] at hk
+    subst h; subst hs; subst hk; exact ⟨hi, hr⟩
   | cons e es ih =>
-    intro c c1 o o1 h hs hr
+    intro c c1 o o1 k k1 h hs hk hi hr
     simp only [crun] at h
     simp only [runEvs] at hs
+    simp only [krun] at hk
     cases h1 : cstep inPar c e with
     | none => simp [h1] at h
     | some c' =>
       cases h2 : Ev.step o e with
       | none => simp [h2] at hs
       | some o' =>
-        simp only [h1] at h
-        simp only [h2] at hs
-        exact ih c' c1 o' o1 h hs (rel_step h1 h2 hr)
+        cases h3 : Ev.kstep k e with
+        | none => simp [h3] at hk
+        | some k' =>
+          simp only [h1] at h
+          simp only [h2] at hs
+          simp only [h3] at hk
+          obtain ⟨hi', hr'⟩ := rel_step h1 h2 h3 hi hr hK
+          exact ih c' c1 o' o1 k' k1 h hs hk hi' hr'
 
-theorem cfail_sem {inPar : Bool} {c : LSt} {e : Ev} {o o0 : Bool} (hf : CFail inPar c e) (hr : Rel o0 c o) :
+theorem cfail_sem {inPar : Bool} {c : LSt} {e : Ev} {o o0 : Bool} {k k' k0 : Option Bool}
+    (hf : CFail inPar c e) (hk : Ev.kstep k e = some k') (hi : KInv k0 c k) (hr : Rel o0 k0 c o) :
     Ev.step o e = none := by
-  rcases c with ⟨a, b, d⟩
-  cases e <;> cases a <;> cases b <;> cases d <;> cases o <;> cases o0 <;> simp_all [CFail, Rel, Ev.step]
+  rcases c with ⟨a, kl, b, d⟩
+  rcases e with ⟨op, el⟩
+  cases a
+  · simp only [KInv, Bool.false_eq_true, if_false] at hi
+    subst hi
+    cases op <;> cases b <;> cases d <;> cases el <;> cases o <;> cases o0 <;> rcases k with _ | _ | _ <;>
+      simp_all [CFail, Rel, Ev.step, Ev.kstep]
+  · simp only [KInv, if_true] at hi
+    subst hi
+    cases op <;> cases b <;> cases d <;> cases el <;> cases kl <;> cases o <;>
+      simp_all [CFail, Rel, Ev.step, Ev.kstep]
 
-/-- if the bookkeeping of `l` fails within `evs` but the ownership semantics runs through
-    `evs ++ more`, then the two were not related at the start -/
-theorem fails_sem {l : Leaf} {s : Scope} {evs more : List Ev} {o : Bool} (hf : Fails l s evs)
-    (hr : Rel o (s.proj l) o) : runEvs o (evs ++ more) = none := by
+/-- if the bookkeeping of `l` fails within `evs` but the (well-kinded) events `evs ++ more` run
+    through in the ownership semantics, then the two were not related at the start -/
+theorem fails_sem {l : Leaf} {s : Scope} {evs more : List Ev} {o : Bool} {k0 k1 : Option Bool}
+    (hf : Fails l s evs) (hK : k0 ≠ some true → o = false) (hi : KInv k0 (s.proj l) k0)
+    (hr : Rel o k0 (s.proj l) o) (hk : krun k0 (evs ++ more) = some k1) : runEvs o (evs ++ more) = none := by
   obtain ⟨pre, e, post, c, h1, h2, h3⟩ := hf
   subst h1
+  rw [List.append_assoc, krun_append] at hk
   rw [List.append_assoc, runEvs_append]
   cases hp : runEvs o pre with
   | none => rfl
   | some o' =>
-    have := rel_run pre _ _ _ _ h2 hp hr
-    simp only [Option.bind, List.cons_append, runEvs, cfail_sem h3 this]
+    cases hkp : krun k0 pre with
+    | none => simp [hkp] at hk
+    | some k' =>
+      simp only [hkp, Option.bind, List.cons_append, krun] at hk
+      cases hke : Ev.kstep k' e with
+      | none => simp [hke] at hk
+      | some k'' =>
+        obtain ⟨hi', hr'⟩ := rel_run hK pre _ _ _ _ _ _ h2 hp hkp hi hr
+        simp only [Option.bind, List.cons_append, runEvs, cfail_sem h3 hke hi' hr']
 
 end GuppyVerif.Linearity
